@@ -113,7 +113,7 @@ Definition run_ref (args : list str) : str :=
   end.
 
 Definition run_C04g (suite : str) (args : list str) : option str :=
-  if streqb suite (bs "state.conformant") || streqb suite (bs "state.conformant.long") || streqb suite (bs "state.beyond")
+  if streqb suite (bs "state.conformant") || streqb suite (bs "state.conformant.long")
   then Some (run_conformant args)
   else if streqb suite (bs "state.ref") then Some (run_ref args)
   else None.
